@@ -58,7 +58,8 @@ Section E2E.
   Variable show_float : F -> str.
   Variable parse_float : bool -> str -> option F.
   Variable show_time_iso show_time_str : T -> str.
-  Variable parse_time_np parse_time_fmt parse_time_pd : str -> option T.
+  Variable parse_time_np : bool -> str -> option T.
+  Variable parse_time_fmt parse_time_pd : str -> option T.
   Variable parse_delta : str -> option D.
   Hypothesis feqb_spec : forall a b, reflect (a = b) (feqb a b).
   Hypothesis teqb_spec : forall a b, reflect (a = b) (teqb a b).
@@ -119,7 +120,7 @@ Section E2E.
   Definition wf (k : kind) (v : value) : Prop :=
     match k, v with
     | KInt sg bits, VInt z => in_range sg bits z = true
-    | KBool, VBool _ | KStr, VStr _ | KFloat _, VFloat _ | KTime _, VTime _ => True
+    | KBool, VBool _ | KStr, VStr _ | KFloat _, VFloat _ | KTime _, VTime _ | KTimeTz, VTime _ => True
     | KCat, VCat (VStr _) => True
     | _, _ => False
     end.
@@ -134,6 +135,7 @@ Section E2E.
     - apply Bool.eqb_prop in H. now subst.
     - destruct (str_eqb_spec s s0); [now subst|discriminate].
     - destruct (feqb_spec f f0); [now subst|discriminate].
+    - destruct (teqb_spec t t0); [now subst|discriminate].
     - destruct (teqb_spec t t0); [now subst|discriminate].
     - destruct a, b; try tauto. cbn in H. destruct (str_eqb_spec s s0); [now subst|discriminate].
   Qed.
@@ -1140,4 +1142,4 @@ Definition cwrite (hive : bool) (names : list str) (chunks : list (list (row E0 
     (fun f => match f with end) (fun t => match t with end) (fun t => match t with end) nat hive names chunks.
 Definition cread (pm : list (str * kind)) (files : list (str * list (row E0 E0 E0 nat))) :=
   read_model E0 E0 E0 e0_eqb e0_eqb e0_eqb (fun _ _ => false)
-    (fun _ _ => None) (fun _ => None) (fun _ => None) (fun _ => None) (fun _ => None) nat pm (fun l => l) files.
+    (fun _ _ => None) (fun _ _ => None) (fun _ => None) (fun _ => None) (fun _ => None) nat pm (fun l => l) files.
